@@ -532,6 +532,34 @@ func checkLen(desc string, n, min, max int) string {
 }
 
 func gxString(r *rng, o gxOpts) *GX {
+	if r.chance(1, 6) {
+		// any *Generator[rune] is accepted as the element generator - also one that can yield values that are not
+		// runes (negative, surrogates, beyond MaxRune): the string must be valid UTF-8 all the same
+		var eg *rapid.Generator[rune]
+		var ed string
+		switch r.intn(4) {
+		case 0:
+			eg, ed = rapid.Int32Range(-200, 'z'), "Int32Range(-200,'z')"
+		case 1:
+			eg, ed = rapid.Int32(), "Int32()"
+		case 2:
+			eg, ed = rapid.SampledFrom([]rune{'a', -1, 0xD800, 0x110000, 'é', -128}), "SampledFrom('a',-1,0xD800,0x110000,'é',-128)"
+		default:
+			eg, ed = rapid.Int32Range(0xD700, 0xE100), "Int32Range(0xD700,0xE100)"
+		}
+		maxR := r.between(1, 6)
+		desc := fmt.Sprintf("StringOfN(%s, 0, %d, -1)", ed, maxR)
+		return &GX{Desc: desc, Gen: rapid.StringOfN(eg, 0, maxR, -1).AsAny(), Cmp: true, Rej: true, Check: func(v any) string {
+			s, ok := v.(string)
+			if !ok {
+				return fmt.Sprintf("%s returned %T", desc, v)
+			}
+			if !utf8.ValidString(s) {
+				return fmt.Sprintf("%s returned invalid UTF-8 %q", desc, s)
+			}
+			return checkLen(desc+" rune count", utf8.RuneCountInString(s), 0, maxR)
+		}}
+	}
 	form := r.intn(4)
 	var rs runeSpec
 	if form >= 2 {
@@ -833,7 +861,38 @@ func mkLocalB() *GX {
 	return mkGX[record]("record(scope B)")
 }
 
+// defined (named) types whose underlying type is a basic one, used as slice/array elements and map keys
+type mkOctet uint8
+type mkWord uint16
+type mkLabel string
+type mkFlag bool
+type mkOctets []mkOctet
+type mkPacket struct {
+	Hdr  [2]mkOctet
+	Body []mkOctet
+	Tags map[mkLabel]mkFlag
+	W    []mkWord
+	Raw  []byte
+	Blob mkOctets
+}
+
 func gxMake(r *rng) *GX {
+	if r.chance(1, 4) {
+		switch r.intn(6) {
+		case 0:
+			return mkGX[[]mkOctet]("[]mkOctet")
+		case 1:
+			return mkGX[mkPacket]("mkPacket")
+		case 2:
+			return mkGX[map[mkLabel][]mkWord]("map[mkLabel][]mkWord")
+		case 3:
+			return mkGX[mkOctets]("mkOctets")
+		case 4:
+			return mkGX[[]mkFlag]("[]mkFlag")
+		default:
+			return mkGX[*[]mkLabel]("*[]mkLabel")
+		}
+	}
 	switch r.intn(12) {
 	case 10:
 		return mkLocalA()
